@@ -13,7 +13,7 @@
                 "as_list"?, "omit_default"?, "extra_in"?, "extra_out"?}    (absent = Omitted())
 -/
 import AdaptixModel.Protocol
-import AdaptixModel.Layout.Crown
+import AdaptixModel.Layout.ModelDump
 
 namespace Adaptix.Ops.C03
 open Lean Adaptix.Protocol Adaptix.Layout
@@ -276,10 +276,211 @@ def handlePathOf (j : Json) : Except String Json := do
         | some p => encPath p
         | none => Json.null])
 
+/-! ### generated loader / dumper -/
+
+def decPolicy (j : Json) : Except String Policy :=
+  match j with
+  | .str "skip" => .ok .skip
+  | .str "forbid" => .ok .forbid
+  | .str "collect" => .ok .collect
+  | _ => .error "bad policy"
+
+partial def decInpCrown (j : Json) : Except String InpCrown := do
+  match ← fieldStr j "t" with
+  | "dict" =>
+    let m ← (← fieldArr j "map").mapM fun kv =>
+      match kv with
+      | .arr #[.str k, c] => do
+        let c ← decInpCrown c
+        return (k, c)
+      | _ => .error "bad crown map item"
+    return .dict m (← decPolicy (← field j "policy"))
+  | "list" =>
+    let m ← (← fieldArr j "map").mapM decInpCrown
+    return .list m (← decPolicy (← field j "policy"))
+  | "field" => return .field (← fieldStr j "id")
+  | "none" => return .none
+  | t => throw s!"bad crown {t}"
+
+partial def decOutCrown (j : Json) : Except String OutCrown := do
+  match ← fieldStr j "t" with
+  | "dict" =>
+    let m ← (← fieldArr j "map").mapM fun kv =>
+      match kv with
+      | .arr #[.str k, c] => do
+        let c ← decOutCrown c
+        return (k, c)
+      | _ => .error "bad crown map item"
+    let sv ← (← fieldArr j "sieves").mapM fun kv =>
+      match kv with
+      | .arr #[.str k, d] => do
+        let d ← decVal d
+        return (k, d)
+      | _ => .error "bad sieve item"
+    return .dict m sv
+  | "list" =>
+    let m ← (← fieldArr j "map").mapM decOutCrown
+    return .list m
+  | "field" => return .field (← fieldStr j "id")
+  | "none" => return .none (← decVal (← field j "placeholder"))
+  | t => throw s!"bad crown {t}"
+
+def decMode (j : Json) : Except String DebugTrail := do
+  match ← fieldStr j "mode" with
+  | "disable" => return .disable
+  | "first" => return .first
+  | "all" => return .all
+  | m => throw s!"bad mode {m}"
+
+def decInpMove (j : Json) : Except String InpExtraMove :=
+  match j with
+  | .null => .ok .none
+  | .str "kwargs" => .ok .kwargs
+  | .str "saturate" => .ok .saturate
+  | _ => do
+    let ids ← (← fieldArr j "targets").mapM asStr
+    return .targets ids
+
+def decOutMove (j : Json) : Except String OutExtraMove :=
+  match j with
+  | .null => .ok .none
+  | .str "extract" => .ok .extract
+  | _ => do
+    let ids ← (← fieldArr j "targets").mapM asStr
+    return .targets ids
+
+/-- the fixed family of field loaders the harness registers (parameters of the property) -/
+def namedLoader (kind : String) (v : Val) : Except TErr Val :=
+  match kind, v with
+  | "any", v => .ok v
+  | "int", .int n => .ok (.int n)
+  | "int", v => .error ⟨[], .typeLoad "int" v⟩
+  | "str", .str s => .ok (.str s)
+  | "str", v => .error ⟨[], .typeLoad "str" v⟩
+  | "neg", .int n => .ok (.int (-n))
+  | "neg", v => .error ⟨[], .typeLoad "int" v⟩
+  | _, v => .error ⟨[], .other "ValueLoadError" v⟩
+
+/-- the fixed family of field dumpers of the harness -/
+def namedDumper (kind : String) (v : Val) : Except String Val :=
+  match kind, v with
+  | "id", v => .ok v
+  | "chk", .str "FAIL" => .error "DumpMarkerError"
+  | "chk", v => .ok v
+  | "neg", .str "FAIL" => .error "DumpMarkerError"
+  | "neg", .int n => .ok (.int (-n))
+  | "neg", .bool b => .ok (.int (if b then -1 else 0))
+  | _, _ => .error "TypeError"
+
+def decKinds (j : Json) (k : String) : Except String (List (String × String)) := do
+  match ← field j k with
+  | .obj kvs => kvs.toList.mapM fun (id, v) => do
+      let v ← asStr v
+      return (id, v)
+  | _ => throw s!"field {k}: expected object"
+
+def encLErr : LErr → List (String × Json)
+  | .typeLoad ex i => [("cls", "TypeLoadError"), ("expected", Json.str ex), ("input", encVal i)]
+  | .excludedType i => [("cls", "ExcludedTypeLoadError"), ("input", encVal i)]
+  | .noRequiredFields fs i => [("cls", "NoRequiredFieldsLoadError"), ("fields", listJ (fs.map Json.str)), ("input", encVal i)]
+  | .noRequiredItems n i => [("cls", "NoRequiredItemsLoadError"), ("len", natJ n), ("input", encVal i)]
+  | .extraFields fs i => [("cls", "ExtraFieldsLoadError"), ("fields", listJ (fs.map Json.str)), ("input", encVal i)]
+  | .extraItems n i => [("cls", "ExtraItemsLoadError"), ("len", natJ n), ("input", encVal i)]
+  | .other cls i => [("cls", Json.str cls), ("input", encVal i)]
+
+def encTErr (e : TErr) : Json :=
+  Json.mkObj (("trail", encPath e.trail) :: encLErr e.err)
+
+def encLoadOutcome : LoadOutcome → Json
+  | .ok args extra =>
+    let base : List (String × Json) :=
+      [("r", Json.str "ok"), ("args", listJ (args.map fun (k, v) => listJ [Json.str k, encVal v]))]
+    Json.mkObj (base ++ match extra with | some e => [("extra", encVal e)] | none => [])
+  | .error e => Json.mkObj [("r", "error"), ("e", encTErr e)]
+  | .aggregate es => Json.mkObj [("r", "aggregate"), ("es", listJ (es.map encTErr))]
+
+def encDumpOutcome : DumpOutcome → Json
+  | .ok v => Json.mkObj [("r", "ok"), ("v", encVal v)]
+  | .error f cls => Json.mkObj [("r", "error"), ("field", Json.str f), ("cls", Json.str cls)]
+  | .group errs => Json.mkObj [("r", "group"), ("errs", listJ (errs.map fun (f, c) => listJ [Json.str f, Json.str c]))]
+  | .escape cls => Json.mkObj [("r", "escape"), ("cls", Json.str cls)]
+
+def decLoadCfg (j : Json) (fields : List Field) (move : InpExtraMove) : Except String LoadCfg := do
+  let kinds ← decKinds j "loaders"
+  return { mode := ← decMode j, strict := ← fieldBool j "strict", move, fields,
+           loader := fun id v => namedLoader ((kinds.lookup id).getD "any") v }
+
+def decDumpCfg (j : Json) (fields : List Field) (move : OutExtraMove) : Except String DumpCfg := do
+  let kinds ← decKinds j "dumpers"
+  let extracted : Except String Val ← match optField j "extracted" with
+    | some e =>
+      match optField e "err" with
+      | some (.str cls) => pure (.error cls)
+      | _ => do
+        let v ← decVal (← field e "v")
+        pure (.ok v)
+    | none => pure (.ok (.dict []))
+  return { mode := ← decMode j, move, fields, extracted,
+           dumper := fun id v => namedDumper ((kinds.lookup id).getD "id") v }
+
+def decObj (j : Json) : Except String (List (String × Val)) := do
+  (← fieldArr j "obj").mapM fun kv =>
+    match kv with
+    | .arr #[.str k, v] => do
+      let v ← decVal v
+      return (k, v)
+    | _ => .error "bad obj item"
+
+/-- generated loader for an explicit crown -/
+def handleLoad (j : Json) : Except String Json := do
+  let fields ← (← fieldArr j "fields").mapM decField
+  let move ← decInpMove (← field j "move")
+  let cfg ← decLoadCfg j fields move
+  let crown ← decInpCrown (← field j "crown")
+  let data ← decVal (← field j "data")
+  return encLoadOutcome (loadModel cfg crown data)
+
+/-- generated dumper for an explicit crown -/
+def handleDump (j : Json) : Except String Json := do
+  let fields ← (← fieldArr j "fields").mapM decField
+  let move ← decOutMove (← field j "move")
+  let cfg ← decDumpCfg j fields move
+  let crown ← decOutCrown (← field j "crown")
+  let obj ← decObj j
+  return encDumpOutcome (dumpModel cfg crown obj)
+
+/-- whole pipeline: recipe → layout → generated loader -/
+def handleModelLoad (j : Json) : Except String Json := do
+  let fields ← (← fieldArr j "fields").mapM decField
+  let (own, parents) ← decStack j
+  let style ← decStyles j
+  match provideInputLayout own parents style fields with
+  | .error e => return Json.mkObj [("r", "no-loader"), ("why", encStructErr e)]
+  | .ok l =>
+    let cfg ← decLoadCfg j fields l.move
+    let data ← decVal (← field j "data")
+    return encLoadOutcome (loadModel cfg l.crown data)
+
+/-- whole pipeline: recipe → layout → generated dumper -/
+def handleModelDump (j : Json) : Except String Json := do
+  let fields ← (← fieldArr j "fields").mapM decField
+  let (own, parents) ← decStack j
+  let style ← decStyles j
+  match provideOutputLayout own parents style fields with
+  | .error e => return Json.mkObj [("r", "no-dumper"), ("why", encStructErr e)]
+  | .ok l =>
+    let cfg ← decDumpCfg j fields l.move
+    let obj ← decObj j
+    return encDumpOutcome (dumpModel cfg l.crown obj)
+
 def handle : Protocol.Handler := fun j => do
   match ← fieldStr j "op" with
   | "layout" => handleLayout j
   | "path_of" => handlePathOf j
+  | "load" => handleLoad j
+  | "dump" => handleDump j
+  | "model_load" => handleModelLoad j
+  | "model_dump" => handleModelDump j
   | op => throw s!"unknown op {op}"
 
 end Adaptix.Ops.C03
